@@ -269,4 +269,157 @@ theorem flag_off_of_unknown {fx : Fixes} {d : Defaults} {p : Pers} {env : Env} {
       cases hb
     · exact absurd hw hf
 
+theorem caseOf_flag_S {ch : Char} (h : caseOf ch = .flag .S) : ch = 'S' := by
+  unfold caseOf at h; split at h <;> first | rfl | (simp at h)
+theorem caseOf_flag_k {ch : Char} (h : caseOf ch = .flag .k) : ch = 'k' := by
+  unfold caseOf at h; split at h <;> first | rfl | (simp at h)
+
+/-- -S / -k are in force exactly when the command line has the option (there is no variable for them) -/
+theorem flag_S_iff {fx : Fixes} {d : Defaults} {p : Pers} {env : Env} {argv : List Str} {c : Cfg}
+    (h : effective fx d p env argv = .ok c) :
+    (c.retRemoteRc = true ↔ ∃ arg, Tok.opt 'S' arg ∈ (getopt (fullString d p) argv).1) ∧
+    (c.killOnFail = true ↔ ∃ arg, Tok.opt 'k' arg ∈ (getopt (fullString d p) argv).1) := by
+  have hS := effective_flag h .S
+  have hk := effective_flag h .k
+  simp only [flagField] at hS hk
+  constructor
+  · rw [hS]
+    constructor
+    · intro ⟨t, hm, ha⟩
+      obtain ⟨ch, arg, rfl, hc⟩ := action_flag_char ha
+      rcases hc with hc | ⟨_, hw⟩
+      · rw [caseOf_flag_S hc] at hm; exact ⟨arg, hm⟩
+      · cases hw
+    · intro ⟨arg, hm⟩
+      exact ⟨_, hm, by simp [action, caseOf]⟩
+  · rw [hk]
+    constructor
+    · intro ⟨t, hm, ha⟩
+      obtain ⟨ch, arg, rfl, hc⟩ := action_flag_char ha
+      rcases hc with hc | ⟨_, hw⟩
+      · rw [caseOf_flag_k hc] at hm; exact ⟨arg, hm⟩
+      · cases hw
+    · intro ⟨arg, hm⟩
+      exact ⟨_, hm, by simp [action, caseOf]⟩
+
+/-- pdcp / rpdcp: neither letter is in the option string, so both flags are off in every accepted copy run -/
+theorem pcp_flags_off {fx : Fixes} {d : Defaults} {p : Pers} {env : Env} {argv : List Str} {c : Cfg}
+    (hmS : optKind (fullString d p) 'S' = none) (hmk : optKind (fullString d p) 'k' = none)
+    (h : effective fx d p env argv = .ok c) : c.retRemoteRc = false ∧ c.killOnFail = false := by
+  obtain ⟨hS, hk⟩ := flag_S_iff h
+  constructor
+  · cases hv : c.retRemoteRc with
+    | false => rfl
+    | true =>
+      obtain ⟨arg, hm⟩ := hS.mp hv
+      obtain ⟨b, hb⟩ := getopt_known _ _ _ _ hm
+      rw [hmS] at hb; cases hb
+  · cases hv : c.killOnFail with
+    | false => rfl
+    | true =>
+      obtain ⟨arg, hm⟩ := hk.mp hv
+      obtain ⟨b, hb⟩ := getopt_known _ _ _ _ hm
+      rw [hmk] at hb; cases hb
+
+/-! ### the codes a refusal can have -/
+
+theorem action_exit_code {fx : Fixes} {d : Defaults} {t : Tok} {n : Nat} (h : action fx d t = .exit n) : n = 0 ∨ n = 1 := by
+  cases t with
+  | bad => simp [action] at h; omega
+  | opt ch arg =>
+    unfold action at h
+    simp only at h
+    split at h
+    all_goals first
+      | (simp at h; omega)
+      | (split at h <;> simp at h <;> omega)
+      | (cases hx : stringToInt fx (arg.getD []) <;> simp [hx, Option.elim] at h <;> omega)
+      | (cases hx : timeoutArg fx (arg.getD []) <;> simp [hx, Option.elim] at h <;> omega)
+      | skip
+    · cases hx : wcollArg fx d (arg.getD []) with
+      | none => simp [hx, Option.elim] at h; omega
+      | some b => cases b <;> simp [hx, Option.elim] at h
+
+theorem applyToks_error {fx : Fixes} {d : Defaults} {p : Pers} {toks : List Tok} {c : Cfg} {n : Nat}
+    (h : applyToks fx d p c toks = .error n) : ∃ t ∈ toks, action fx d t = .exit n := by
+  induction toks generalizing c with
+  | nil => simp [applyToks] at h
+  | cons t ts ih =>
+    unfold applyToks at h
+    cases h1 : applyTok fx d p c t with
+    | error m =>
+      simp only [h1, Except.error.injEq] at h
+      subst h
+      refine ⟨t, by simp, ?_⟩
+      unfold applyTok at h1
+      generalize action fx d t = a at h1
+      cases a <;> simp [perform] at h1
+      subst h1; rfl
+    | ok c1 =>
+      simp only [h1] at h
+      obtain ⟨t', hm, ha⟩ := ih h
+      exact ⟨t', List.mem_cons_of_mem _ hm, ha⟩
+
+/-- main ends before dsh() with status 1 — or with status 0, and then only because an option that asks for
+    information and nothing else (-L, -V, -T) is on the command line -/
+theorem effective_exit_code {fx : Fixes} {d : Defaults} {p : Pers} {env : Env} {argv : List Str} {n : Nat}
+    (h : effective fx d p env argv = .exit n) :
+    n = 1 ∨ (n = 0 ∧ ∃ t ∈ (getopt (fullString d p) argv).1, action fx d t = .exit 0) := by
+  unfold effective at h
+  cases h1 : optEnv fx p env (optDefault d) with
+  | error m =>
+    simp only [h1, Result.exit.injEq] at h
+    subst h
+    left
+    unfold optEnv at h1
+    have en : ∀ name cur m, envNum fx env name cur = .error m → m = 1 := by
+      intro name cur m hm
+      unfold envNum at hm
+      cases hg : getenv env name with
+      | none => simp [hg] at hm
+      | some t =>
+        simp only [hg] at hm
+        cases hs : stringToInt fx t with
+        | none => simp [hs] at hm; exact hm.symm
+        | some w => simp [hs] at hm
+    cases e1 : envNum fx env "FANOUT" (optDefault d).fanout with
+    | error k => simp [e1, bind, Except.bind] at h1; rw [← h1]; exact en _ _ _ e1
+    | ok f =>
+      cases e2 : envNum fx env "PDSH_CONNECT_TIMEOUT" (optDefault d).connectTimeout with
+      | error k => simp [e1, e2, bind, Except.bind] at h1; rw [← h1]; exact en _ _ _ e2
+      | ok ct =>
+        cases e3 : envNum fx env "PDSH_COMMAND_TIMEOUT" (optDefault d).commandTimeout with
+        | error k => simp [e1, e2, e3, bind, Except.bind] at h1; rw [← h1]; exact en _ _ _ e3
+        | ok ut => simp [e1, e2, e3, bind, Except.bind, pure, Except.pure] at h1
+  | ok c1 =>
+    simp only [h1] at h
+    cases h2 : applyToks fx d p (optArgsEarly c1 (getopt (earlyString fx d p) argv).1) (getopt (fullString d p) argv).1 with
+    | error m =>
+      simp only [h2, Result.exit.injEq] at h
+      subst h
+      obtain ⟨t, hm, ha⟩ := applyToks_error h2
+      rcases action_exit_code ha with h0 | h1'
+      · right; subst h0; exact ⟨rfl, t, hm, ha⟩
+      · left; exact h1'
+    | ok c3 =>
+      simp only [h2] at h
+      cases h3 : postArgs d c3 with
+      | error m =>
+        simp only [h3, Result.exit.injEq] at h
+        subst h
+        left
+        unfold postArgs at h3
+        cases hn : (c3.rcmdName <|> defaultRcmd d) with
+        | none => simp [hn] at h3
+        | some nm =>
+          simp only [hn] at h3
+          split at h3
+          · simp at h3
+          · simp at h3; exact h3.symm
+      | ok c4 =>
+        simp only [h3] at h
+        split at h
+        · simp at h
+        · simp at h; left; exact h.symm
+
 end PdshVerif.Opt
